@@ -14,9 +14,13 @@ RULE = ("schemas with mutable defaults on typed lists/dicts (scalars, dict items
         "in-place list/dict mutations; after EVERY operation M-twin compares (1) the snapshot of twin `b` built before, "
         "(2) a structural fingerprint of the schema (field set, vars() of every field recursively, defaults), and "
         "periodically (3) a twin built *after* the mutations against the declared defaults; a second scenario reuses "
-        "one sub-schema / config type as the item type of two lists in two configurations; non-trivial = >= 3 "
+        "one sub-schema / config type as the item type of two lists in two configurations; a third has two configurations "
+        "load the SAME document with include files (untyped lists/dicts, key-typed dicts, dynamic extras, all five "
+        "formats), mutates every reachable container of one in place at any depth and compares the other and a later "
+        "load of the unchanged files; hand-made argparse namespaces (known options, options a dynamic or fixed section "
+        "does not declare) go through cmdline_args_override; non-trivial = >= 3 "
         "operations applied with >= 1 in-place mutation or dynamic field; distinct = distinct (schema, history)")
-REQUIRED = ("cross_assignments", "serialisations_applied", "twin_before_checks", "twin_after_checks", "fingerprint_checks", "shared_item_checks", "ops_applied",
+REQUIRED = ("cmdline_namespaces_applied", "same_document_loads", "cross_assignments", "serialisations_applied", "twin_before_checks", "twin_after_checks", "fingerprint_checks", "shared_item_checks", "ops_applied",
             "inplace_mutations", "dynamic_fields_added")
 ASSUMPTIONS = ["deep mutation inside an *untyped* default (ListField(default=[[1]]), Field(default=[...])) is out of "
                "scope: the property quantifies over mutable defaults on typed fields"]
@@ -25,6 +29,8 @@ SHRINK_KEY = "ops"
 
 def generate(rng, ctx):
     thorough = ctx.tier == "thorough"
+    if rng.random() < 0.15:
+        return {"scenario": "same-document", "seed": rng.getrandbits(32), "n": rng.randrange(3, 20), "ops": []}
     if rng.random() < 0.2:
         return {"scenario": "shared-item", "seed": rng.getrandbits(32), "n": rng.randrange(5, 40), "ops": []}
     schema = gen.gen_schema(rng, depth=rng.choice([1, 2, 3] if thorough else [1, 2]), width=rng.choice([3, 4, 5]),
@@ -58,6 +64,26 @@ def generate(rng, ctx):
                     v = gen.one_value(rng, vf, "valid", env) if vf else 1
                     ops.insert(rng.randrange(len(ops) + 1), {"op": "dictop", "path": path, "name": rng.choice(["setitem", "update"]),
                                                              "kv": [k, v], "pairs": [[k, v]], "kind": "dict"})
+    # command-line namespaces naming options a section does not declare (dynamic sections take them as extra fields of
+    # that configuration only; fixed sections reject them) next to known ones
+    sections = [""] + [p for p, nd in history.all_paths(schema) if nd["kind"] in ("schema", "ctype") and "[]" not in p]
+    leaves = [(p, nd) for p, nd in history.all_paths(schema) if nd["kind"] == "field" and "[]" not in p and
+              nd["family"] in ("str", "int", "bool", "float", "port")]
+    for _ in range(rng.choice([0, 1, 1, 2])):
+        items = []
+        for _j in range(rng.choice([1, 2, 3])):
+            r = rng.random()
+            if r < 0.6 or not leaves:
+                sec = rng.choice(sections)
+                items.append([(sec + "." if sec else "") + "zq%d" % rng.randrange(5), rng.choice([1, "v", "7", True])])
+            else:
+                p, nd = rng.choice(leaves)
+                v = gen.one_value(rng, nd, "valid", env)
+                if v is not None and isinstance(v, (str, int, float, bool)) and v == v:
+                    items.append([p, v])
+        if items:
+            ops.insert(rng.randrange(len(ops) + 1), {"op": "cmdline_ns", "items": items,
+                                                     "ignore": rng.choice([None, None, "config", [items[0][0]]])})
     return {"scenario": "twin", "schema": schema, "ops": ops, "cross": cross[:4]}
 
 
@@ -189,6 +215,8 @@ def _s(v):
 def run(case, ctx, res):
     if case["scenario"] == "shared-item":
         return run_shared(case, ctx, res)
+    if case["scenario"] == "same-document":
+        return run_samedoc(case, ctx, res)
     if case["scenario"] == "default-with-config-instances":
         return run_k4(case, ctx, res)
     if case["scenario"] == "default-item-with-untyped-container":
@@ -225,6 +253,8 @@ def run(case, ctx, res):
             res.count("inplace_mutations")
         if out["kind"] == "serialize":
             res.count("serialisations_applied")
+        if out["kind"] == "cmdline-ns":
+            res.count("cmdline_namespaces_applied")
         if out["kind"] == "set-dynamic" and out["raised"] is None:
             dyn += 1
             res.count("dynamic_fields_added")
@@ -357,6 +387,183 @@ def run_shared(case, ctx, res):
         res.count("twin_before_checks")
         res.count("fingerprint_checks")
         res.count("dynamic_fields_added", 0)
+
+
+def _samedoc_schema(cc, rng):
+    root = cc.Schema(dynamic=rng.random() < 0.5)
+    root.inc = cc.IncludeField()
+    root.plugins = cc.ListField()
+    root.options = cc.DictField()
+    root.groups = cc.DictField(cc.StringField())
+    root.nums = cc.ListField(cc.IntField())
+    root.anything = cc.AnyField() if hasattr(cc, "AnyField") else cc.Field()
+    root.name = cc.StringField(default="n0")
+    root.sub.inc2 = cc.IncludeField()
+    root.sub.items = cc.ListField()
+    root.sub.table = cc.DictField()
+    root.sub.level = cc.IntField(default=1)
+    return root
+
+
+def _containers(cc, obj, path, out, depth=0):
+    """Every list/dict container reachable below a configuration (typed proxies and raw ones at any depth)."""
+    if depth > 6:
+        return
+    if isinstance(obj, cc.Config):
+        for k, _f in list(obj._fields.items()) + list(obj._schema._fields.items()):
+            try:
+                v = obj._data.get(k)
+            except Exception:
+                continue
+            if v is not None:
+                _containers(cc, v, (path + "." if path else "") + k, out, depth + 1)
+    elif isinstance(obj, list):
+        out.append((path, obj))
+        for i, v in enumerate(list(obj)):
+            _containers(cc, v, "%s[%d]" % (path, i), out, depth + 1)
+    elif isinstance(obj, dict):
+        out.append((path, obj))
+        for k, v in list(obj.items()):
+            _containers(cc, v, "%s[%r]" % (path, k), out, depth + 1)
+
+
+def run_samedoc(case, ctx, res):
+    """Several configurations of one schema load the SAME document (and the same included files); in-place changes
+    made through one of them must not reach the others nor what a later load of the unchanged files returns."""
+    import os
+
+    from .. import trees
+
+    cc = ctx.cc
+    rng = rng_for("c13-samedoc", case["seed"])
+    fmt = rng.choice(trees.FORMATS)
+    root = _samedoc_schema(cc, rng)
+
+    def leafs():
+        return rng.choice([1, "s", [1, 2], {"k": [1, {"z": 2}]}, [[1], [2, 3]], {"a": {"b": [0]}}, 2.5, True])
+
+    values = {"plugins": [leafs() for _ in range(rng.randrange(1, 4))],
+              "options": {"o%d" % i: leafs() for i in range(rng.randrange(1, 4))},
+              "groups": {"g%d" % i: rng.choice([[1, 2], {"m": [3]}, "x", [["n"]]]) for i in range(rng.randrange(1, 3))},
+              "nums": [rng.randrange(100) for _ in range(rng.randrange(1, 4))],
+              "anything": rng.choice([[1, [2]], {"q": [1]}, [{"r": 1}]]),
+              "name": "n%d" % rng.randrange(9)}
+    if root._dynamic:
+        values["extra_hosts"] = [["h1"], {"h": [2]}]
+    subvalues = {"items": [leafs() for _ in range(rng.randrange(1, 3))], "table": {"t": leafs(), "u": [1, [2]]},
+                 "level": rng.randrange(9)}
+    d = os.path.join(ctx.dir, "sd%08x" % case["seed"])
+    os.makedirs(d, exist_ok=True)
+    main, inc, inc2 = {}, {}, {}
+    for k, v in values.items():
+        (inc if rng.random() < 0.6 else main)[k] = v
+    main["sub"], incsub = {}, {}
+    for k, v in subvalues.items():
+        r = rng.random()
+        (inc2 if r < 0.4 else incsub if r < 0.7 else main["sub"])[k] = v
+    if incsub:
+        inc["sub"] = incsub
+    main["inc"] = os.path.join(d, "inc." + fmt)
+    main["sub"]["inc2"] = os.path.join(d, "inc2." + fmt)
+    if not all(trees.in_domain(fmt, t) for t in (main, inc, inc2)):
+        return
+    codec = cc.ConfigFormat.get(fmt)
+    probe = root()
+    try:
+        docs = {"main": codec.dumps(probe, main), "inc": codec.dumps(probe, inc), "inc2": codec.dumps(probe, inc2)}
+    except Exception:
+        return
+    for name, doc in docs.items():
+        with open(os.path.join(d, name + "." + fmt), "wb") as fp:
+            fp.write(doc)
+    mainfile = os.path.join(d, "main." + fmt)
+
+    def load_into(cfg):
+        if rng.random() < 0.5:
+            cfg.load(mainfile, fmt)
+        else:
+            cfg.loads(docs["main"], fmt)
+
+    a, b = root(), root()
+    try:
+        load_into(a)
+        load_into(b)
+    except Exception as exc:
+        res.count("same_document_load_failed")
+        return
+    res.count("same_document_loads")
+    fp0 = fingerprint(cc, root)
+    b0 = Snapshot(b)
+    applied = 0
+    for idx in range(case["n"]):
+        conts = []
+        _containers(cc, a, "", conts)
+        if not conts:
+            break
+        path, c = rng.choice(conts)
+        try:
+            if isinstance(c, list):
+                act = rng.choice(["append", "insert", "pop", "setitem", "clear", "extend"])
+                typed_int = path == "nums"
+                x = rng.randrange(1000) if typed_int else rng.choice([idx, "m%d" % idx, [idx], {"m": idx}])
+                if act == "append":
+                    c.append(x)
+                elif act == "insert":
+                    c.insert(0, x)
+                elif act == "extend":
+                    c.extend([x, x])
+                elif act == "pop" and len(c):
+                    c.pop()
+                elif act == "setitem" and len(c):
+                    c[rng.randrange(len(c))] = x
+                elif act == "clear" and rng.random() < 0.3:
+                    del c[:]
+                else:
+                    c.append(x)
+            else:
+                act = rng.choice(["setitem", "pop", "update", "clear"])
+                if act == "setitem":
+                    c["m%d" % idx] = rng.choice([idx, [idx], "v"])
+                elif act == "pop" and len(c):
+                    c.pop(next(iter(c)))
+                elif act == "update":
+                    c.update({"u%d" % idx: [idx]})
+                elif act == "clear" and rng.random() < 0.3:
+                    c.clear()
+                else:
+                    c["m%d" % idx] = idx
+        except Exception:
+            res.count("same_document_mutations_rejected")
+            continue
+        applied += 1
+        res.count("ops_applied")
+        res.count("inplace_mutations")
+        res.count("twin_before_checks")
+        diff = b0.diff(Snapshot(b))
+        if diff:
+            res.viol("M-twin", "same-document:twin", "a and b loaded the same %s document; step %d: %s on a.%s changed "
+                     "configuration b: %s" % (fmt, idx, act, path, "; ".join(diff[:3])))
+            return
+        res.count("fingerprint_checks")
+        diff = fp_diff(fp0, fingerprint(cc, root))
+        if diff:
+            res.viol("M-twin", "same-document:schema", "step %d: %s on a.%s changed the schema: %s" % (idx, act, path, diff))
+            return
+    c = root()
+    try:
+        load_into(c)
+    except Exception as exc:
+        res.viol("M-twin", "same-document:reload", "loading the unchanged %s files into a new configuration raised %r "
+                 "after in-place changes of another configuration" % (fmt, exc))
+        return
+    res.count("twin_after_checks")
+    diff = b0.diff(Snapshot(c), identity=False)
+    if diff:
+        res.viol("M-twin", "same-document:twin-after", "a configuration that loads the unchanged %s files after the in-place "
+                 "changes of a differs from one that loaded them before: %s" % (fmt, "; ".join(diff[:3])))
+        return
+    if applied >= 3:
+        res.nontrivial("samedoc", case["seed"], case["n"])
 
 
 def run_k4(case, ctx, res):
